@@ -293,6 +293,8 @@ def props_of(conj, sig, group):
         return (props_of(conj, base, group) - {'C02'}) | {'C15'}
     if sig.get('fault'):
         ps.add('C20')
+        if conj == 'fault_resurrect':
+            ps.add('C10')
         if conj == 'nopanic':
             ps.add('C13')
         if conj in ('lower', 'pure'):
